@@ -6,7 +6,7 @@
 (* Clauses that start with "MACHINERY:" mean the event itself is unusable  *)
 (* (a wrong hint) - they are never reported as violations of the property. *)
 (***************************************************************************)
-EXTENDS CGSem
+EXTENDS CGSem, CGLint
 
 Machinery(c) == (IF WellFormedRec(c) THEN {} ELSE {"MACHINERY:malformed_record"})
                 \cup (IF c.acyc /\ ~IsTopo(c) THEN {"MACHINERY:not_topological"} ELSE {})
@@ -53,4 +53,46 @@ Judge_limit_fanout(e) ==
   Machinery(e.c) \cup Machinery(e.r) \cup IOClauses(e.c, e.r)
   \cup (IF MaxFanout(e.r) <= e.k THEN {} ELSE {"fanout_bound"})
   \cup PreservesAll(e.c, e.r)
+
+(* Evaluate c and r over the free signals of r (those of c must be among them, by name). *)
+SubFreeEval(c, r) ==
+  LET U    == StdU(r)
+      cols == StdColByName(r)
+      ok   == FreeNames(c) \subseteq FreeNames(r)
+  IN [ok |-> ok, vr |-> Eval(r, U, StdFv(r)), vc |-> IF ok THEN Eval(c, U, FvByName(c, cols)) ELSE <<>>]
+
+(* C05  insert_registers(c, num_stages): e.rt = e.r with every flop made transparent (q pin := buf of d pin),
+   a hint supplied by the harness and re-checked here. *)
+TransparentOf(rt, r, dport, qport) ==
+  /\ NameSet(rt) = NameSet(r)
+  /\ \A i \in 1..r.n : LET j == Idx(rt, r.names[i]) IN
+        /\ rt.out[j] = r.out[i]
+        /\ rt.ty[j] = (IF r.ty[i] = "bb_output" THEN "buf" ELSE r.ty[i])
+  /\ EdgeNames(rt) = EdgeNames(r) \cup {<<Pin(r.bbs[b].inst, dport), Pin(r.bbs[b].inst, qport)>> : b \in 1..Len(r.bbs)}
+Judge_insert_registers(e) ==
+  IF e.exc # "" THEN Raised(e) ELSE
+  LET c == e.c  r == e.r  rt == e.rt IN
+  Machinery(c) \cup Machinery(rt)
+  \cup (IF rt.acyc /\ TransparentOf(rt, r, "d", "q") THEN {} ELSE {"MACHINERY:transparent_hint_wrong"})
+  \cup (IF OutputNames(c) = OutputNames(r) THEN {} ELSE {"outputs_changed"})
+  \cup (IF InputNames(c) \subseteq InputNames(r) THEN {} ELSE {"inputs_lost"})
+  \cup {"type_changed:" \o c.names[i] : i \in {j \in 1..c.n : HasName(r, c.names[j]) /\ r.ty[Idx(r, c.names[j])] # c.ty[j]}}
+  \cup {"unexpected_new_node:" \o r.names[i] : i \in {j \in 1..r.n : ~HasName(c, r.names[j])
+                                                        /\ r.ty[j] \notin {"bb_input", "bb_output", "buf", "input"}}}
+  \cup (IF LintClean(r) THEN {} ELSE {"result_not_lint_clean"})
+  \cup (IF ~(c.acyc /\ rt.acyc /\ TransparentOf(rt, r, "d", "q")) THEN {}
+        ELSE LET ev == SubFreeEval(c, rt) IN
+             IF ~ev.ok THEN {"free_signals_lost"}
+             ELSE FnDiff(c, rt, ev.vc, ev.vr, 1..c.n) \cup Missing(c, rt, 1..c.n))
+
+(* C05  acyclic_unroll(c) for an already acyclic c: equivalent to c *)
+Judge_acyclic_unroll_acyclic(e) ==
+  IF e.exc # "" THEN Raised(e) ELSE
+  Machinery(e.c) \cup Machinery(e.r) \cup IOClauses(e.c, e.r)
+  \cup (IF e.r.acyc THEN {} ELSE {"result_cyclic"})
+  \cup (IF LintClean(e.r) THEN {} ELSE {"result_not_lint_clean"})
+  \cup (IF ~(e.c.acyc /\ e.r.acyc) THEN {}
+        ELSE LET ev == SameFreeEval(e.c, e.r) IN
+             IF ~ev.ok THEN {"free_signals_changed"}
+             ELSE FnDiff(e.c, e.r, ev.vc, ev.vr, Outputs(e.c)) \cup Missing(e.c, e.r, Outputs(e.c)))
 =============================================================================
